@@ -24,7 +24,8 @@ try:
     # demos may refer to their own worktree path: rewrite it
     d = open(os.path.join(src, "demo.py")).read()
     d2 = re.sub(r"/tmp/wt/C\d\d", wt, d)
-    demo_path = os.path.join(wt, "seed_demo_tmp.py")
+    os.makedirs(os.path.join(wt, "seed"), exist_ok=True)          # same relative location as in the agent's worktree
+    demo_path = os.path.join(wt, "seed", "demo.py")
     open(demo_path, "w").write(d2)
 
     def demo():
@@ -42,7 +43,7 @@ try:
                        capture_output=True, text=True, timeout=3600)
     meta["test_suite_with_patch"] = t.stdout.strip()
     meta["confirmed"] = bool(ap.returncode == 0 and rc0 == 0 and rc1 != 0 and "2074 passed" in t.stdout)
-    os.remove(demo_path)
+    shutil.rmtree(os.path.join(wt, "seed"), ignore_errors=True)
     res = {}
     evd = tempfile.mkdtemp(prefix="seedev_")
     for c in [pid] + others:
